@@ -316,6 +316,21 @@ func genC08(t *rapid.T) c08Case {
 				continue
 			}
 		}
+		if chance(t, "case-variant-client", 8) {
+			// fourth family: the base rule and a lone badfilter rule whose client names differ in letter case only
+			y := x
+			y.CPerm = []Cli{{"name", "Laptop"}, {"name", "phone"}, {"ip", "1.2.3.4"}}
+			y.CRestr = nil
+			tw2 := y
+			tw2.CPerm = []Cli{{"name", "laptop"}, {"name", "phone"}, {"ip", "1.2.3.4"}}
+			tw2.Extra = append(append([]string{}, y.Extra...), "badfilter")
+			if !keys[modelKey(y)] && !keys[modelKey(tw2)] {
+				keys[modelKey(y)], keys[modelKey(tw2)] = true, true
+				add(y, false)
+				add(tw2, true)
+				continue
+			}
+		}
 		if chance(t, "lone-twin", 4) {
 			// second family: the rule itself is absent, a near miss y sits in the base list
 			y := c08Mutate(t, x)
